@@ -26,7 +26,7 @@ COMPONENTS_REAL = ["geneticengine.grammar.grammar (extract_grammar, update_weigh
 COMPONENTS_STUB = ["RandomSource.randint/random_float (SimRandom)", "set iteration order (OrderedSimSet)"]
 ASSUMPTIONS = ["not every production of an abstract type has weight zero", "declared weight of an abstract production (nested abstract type) is 1 unless declared"]
 
-FEAT = features(weights=3, nested=3, unreachable=2, standalone=1, cls=6, refined=3, list=1, annlist=1, union=0, tuple=0, flaky=2, dependent=1, abstract_weights=1, nested_start=1, concrete_start=1, wide_weights=1)
+FEAT = features(weights=3, nested=3, unreachable=2, standalone=1, cls=6, refined=3, list=1, annlist=1, union=0, tuple=0, flaky=2, dependent=1, abstract_weights=1, nested_start=1, concrete_start=1, wide_weights=1, future_annotations=1)
 
 
 def budget(tier):
